@@ -29,9 +29,10 @@ const NONCE_LEN_FIELD: usize = 2;
 // n bytes - encrypted DEK
 // n bytes - nonce
 // n bytes - opaque (AEAD encrypted seed + tag)
+// The wrapped DEK is opaque and its size is chosen by the KMS provider (it may be shorter
+// than the 32-byte plaintext DEK), so it does not contribute to the minimum.
 const MIN_PAYLOAD_SIZE: usize = DEK_LEN_FIELD
     + NONCE_LEN_FIELD
-    + DEK_LEN_BYTES
     + NONCE_LEN_BYTES
     + SEED_LENGTH as usize
     + TAG_LEN_BYTES;
